@@ -11,7 +11,8 @@ RULE = ("(i) port generator alone: 1..450 ranges (singletons, adjacent, overlapp
         "(error getters, failing re-open), exact nested order; (iii) the chains of tcp / udp / icmp / arp (scan methods) and of "
         "socks-docker-elastic (real GenericEngine, recording scanner): subnets /20../32 aligned and unaligned x port ranges, "
         "well-formed pairs files, address files x port ranges from a regular file and from stdin, port-less scans; --exclude "
-        "on/off, ARP cache with gateway on/off; multisets of probes and error records; non-trivial = at least 2 probes or a "
+        "on/off, ARP cache with gateway on/off; multisets of probes and error records; the same for udp/tcp/icmp/arp observed on the decoded FRAMES of the command's "
+        "real packet source (own filler, NumCPU workers, merger) with 1500..20000 requests; non-trivial = at least 2 probes or a "
         "refused port list; distinct by case seed; (iv) end to end: the sx binary in a private network namespace (veth pair, "
         "packet socket as wire log): tcp subnet x ports with exclusion, tcp pairs file without -p, udp address file x ports, tcp "
         "address list on stdin x 3 ports, tcp /31 x 400+ port ranges (3 chunks), arp, icmp; socks over local addresses with a listener as the log; table-driven: every packet command (arp, icmp, udp, tcp, "
@@ -182,7 +183,8 @@ def report(ctx, o, why):
     if len(small.get("ranges") or []) > 12:
         small["ranges"] = small["ranges"][:12] + ["... %d ranges" % len(o["ranges"])]
     path = ctx.write_replay("%s-%d" % (o["kind"], o["case_seed"]), {
-        "property": "C01", "what": why, "input": {"kind": o["kind"], "case_seed": o["case_seed"], "big": bool(o.get("big")), "forced": bool(o.get("forced"))},
+        "property": "C01", "what": why, "input": {"kind": o["kind"], "case_seed": o["case_seed"], "big": bool(o.get("big")), "forced": bool(o.get("forced")),
+                                                  "frames": bool(o.get("frames")), "volume": o.get("volume", 0), "cmd": o.get("cmd")},
         "observed": small, "replay_cmd": "bin/check C01 --replay <this file>"})
     key_ = "%s:%s:%s:ranges=%s" % (o["kind"], o["class"], o.get("source", ""), "many" if len(o.get("ranges") or []) > 200 else
                                    ("none" if not o.get("ranges") else "few"))
@@ -210,7 +212,8 @@ def run(ctx):
     rows = []
     if ctx.harness_build("c01"):
         args = ["-out", "cases.jsonl", "-seed", ctx.seed]
-        args += ["-nports", 120, "-nnested", 300, "-nchain", 300] if quick else ["-nports", 3000, "-nnested", 10000, "-nchain", 5000, "-big"]
+        args += ["-nports", 120, "-nnested", 300, "-nchain", 300, "-nframes", 9] if quick else \
+                ["-nports", 3000, "-nnested", 10000, "-nchain", 5000, "-big", "-nframes", 300]
         ok, _ = ctx.harness_run("c01", args, timeout=3000)
         if ok:
             rows = ctx.read_jsonl(os.path.join(ctx.work, "cases.jsonl"))
@@ -247,6 +250,8 @@ def run(ctx):
     if per_class:
         ctx.info.append("failing inputs per class: %s" % json.dumps(per_class))
     if model_ok and rows:
+        # the large frame-level cases are judged by the oracle above only (their probe lists are too long to load)
+        rows = [o for o in rows if not (o.get("frames") and o["nprobes"] > 4000)]
         T.evaluate(ctx, rows, case_term, "From SX Require Import Base.Bytes Model.IPNet Model.Targets Spec.C13 Spec.C01.",
                    16 if quick else 64, describe, CODES)
     # the probes of a pass through the REAL packet engine (N workers, merger, sender with buffer pool): every frame built
@@ -299,6 +304,8 @@ def replay(ctx, path):
         print("replay e2e #%d (%s): %s" % (i["index"], o["class"], why or o.get("skipped") or "property holds on this input"))
         return 1 if why else 0
     arg = "%s:%d" % (i["kind"], i["case_seed"]) + (":big" if i.get("big") else "") + (":filter" if i.get("forced") else "")
+    if i.get("frames"):
+        arg = "frames:%d:%d:%s" % (i["case_seed"], i.get("volume", 2000), i.get("cmd", "udp"))
     ctx.harness_run("c01", ["-out", "one.jsonl", "-replay", arg], timeout=600)
     o = ctx.read_jsonl(os.path.join(ctx.work, "one.jsonl"))[0]
     why = spec_on_impl(o)
